@@ -17,6 +17,7 @@ aggregate calculators is *that they are sums over the individual bodies*:
 import re
 from ..facts import extract, units_matching, Program, AnalysisBroken, sx_find, sx_str
 from ..match import call_args, call_obj, var_of, field_of, known_edges, only_via, ev_write
+from ..columns import range_for
 
 UNITS = r"/Simbody/src/(SimbodyMatterSubsystem|SimbodyMatterSubsystemRep|RigidBodyNode|RigidBodyNode_Weld|RigidBodyNode_LoneParticle)\.cpp$"
 M = "SimTK::SimbodyMatterSubsystem"
@@ -101,16 +102,26 @@ def sums(chk, P):
         if not chk.shape(len(fs) == 1, "SUM", name + ":found", "", "%d definitions" % len(fs)):
             continue
         f = fs[0]
-        loops = f.loops()
-        if not chk.shape(len(loops) == 1, "SUM", name + ":one-loop", f.loc, "%d loops" % len(loops)):
+        loops_all = f.loops()
+        if not chk.shape(len(loops_all) >= 1 and not any(h2 in loops_all[h1] for h1 in loops_all for h2 in loops_all if h1 != h2), "SUM", name + ":body-loops", f.loc,
+                         "%d (un-nested) loops over the bodies" % len(loops_all)):
             continue
-        h, body = next(iter(loops.items()))
+        all_roots, all_acc = [], []
+        for ln, (h, body) in enumerate(sorted(loops_all.items(), key=lambda kv: -kv[0])):
+          tag = name if len(loops_all) == 1 else "%s:loop#%d" % (name, ln)
+          _sum_loop(chk, f, h, body, tag, all_roots, all_acc)
+        _sum_after(chk, f, name, nnorm, loops_all, all_roots, all_acc)
+
+
+def _sum_loop(chk, f, h, body, name, all_roots, all_acc):
         v, c = _loop_var(f, h)
         decls = {}
         for b, i, d in f.events(lambda q: q["k"] == "decl"):
             decls.setdefault(d["var"], []).append((b, d))
         # ---- coverage: b = 1 .. getNumBodies()-1, step one
-        d0 = decls.get(v, [])
+        hl = [e["line"] for e in f.blocks[h]["ev"] if "line" in e]
+        hline = max(hl) if hl else 10 ** 9
+        d0 = sorted([x for x in decls.get(v, []) if x[1]["line"] <= hline], key=lambda x: x[1]["line"])[-1:]      # the loop variable's declaration in force at this loop
         start_ok = len(d0) == 1 and d0[0][0] not in body and isinstance(d0[0][1].get("init"), list) and [l[1] for l in sx_find(d0[0][1]["init"], lambda y: y[0] == "lit")] == ["1"] \
             and not sx_find(d0[0][1]["init"], lambda y: y[0] in ("var", "call", "mem"))
         chk.judge(start_ok, "SUM", name + ":starts-at-body-1", f.loc, "loop variable %s starts at %s (Ground, body 0, is skipped; body 1 must not be)" % (v, sx_str(d0[0][1].get("init")) if d0 else None))
@@ -138,6 +149,12 @@ def sums(chk, P):
                 chk.judge(len(es) == 1, "SUM", "%s:%s:added-once-per-body" % (name, slot), "%s:%d" % (f.file, es[0]["line"]), "%d additions to %s per iteration" % (len(es), slot))
                 byp = _iter_bypass(f, h, body, es)
                 chk.judge(byp is None, "SUM", "%s:%s:added-for-every-body" % (name, slot), "%s:%d" % (f.file, es[0]["line"]), "an iteration can finish without adding to %s" % slot, byp)
+        all_roots += [r for r in roots if r not in all_roots]
+        all_acc += acc
+
+
+def _sum_after(chk, f, name, nnorm, loops_all, roots, acc):
+        body = set().union(*loops_all.values())
         # ---- mass-weighted averages
         norms = [(b, e) for b, _, e in f.events(lambda q: q["k"] == "call" and q.get("op") == "/=") if b not in body]
         norms += [(b, e) for b, _, e in f.events(lambda q: q["k"] == "assign" and q["op"] == "/=") if b not in body]
@@ -206,11 +223,18 @@ def sweeps(chk, P):
                 and [s_[0] for s_ in _steps(f, loops[outer] - loops[inner], vi)] == ["--"]
             chk.judge(ok, "SWEEP", name + ":levels-last..0-children-before-parents", f.loc, "level loop: %s = %s; %s; step %s" %
                       (vi, sx_str(init), sx_str(ci), [s_[0] for s_ in _steps(f, loops[outer] - loops[inner], vi)]))
-        okj = len(dj) == 1 and dj[0]["init"] == ["lit", "0"] and cj[1] == "<" and lv(cj[3]) and bool(sx_find(cj[3], lambda y: y[0] in ("opc", "idx") and var_of(y[3] if len(y) > 3 else y[2]) == vi or (y[0] == "var" and y[1] == vi))) \
-            and [s_[0] for s_ in _steps(f, loops[inner], vj)] == ["++"]
-        chk.judge(okj, "SWEEP", name + ":all-nodes-of-the-level", f.loc, "node loop: %s = %s; %s" % (vj, sx_str(dj[0]["init"]) if dj else None, sx_str(cj)))
+        rf = range_for(f, inner)
         cs = [e for b in loops[inner] for e in f.blocks[b]["ev"] if e["k"] == "call" and e.get("fn", "").split("::")[-1] in ("calcKineticEnergy", "calcCompositeBodyInertiasInward")]
-        okc = len(cs) == 1 and {y[1] for y in sx_find(call_obj(cs[0]), lambda y: y[0] == "var")} == {vi, vj}
+        if rf is not None:
+            # `for (node : rbNodeLevels[i])` visits every node of the level
+            okj = lv(rf[0]) and bool(sx_find(rf[0], lambda y: y == ["var", vi]))
+            chk.judge(okj, "SWEEP", name + ":all-nodes-of-the-level", f.loc, "range-for over %s" % sx_str(rf[0]))
+            okc = len(cs) == 1 and call_obj(cs[0]) == ["var", rf[1]]
+        else:
+            okj = len(dj) == 1 and dj[0]["init"] == ["lit", "0"] and cj[1] == "<" and lv(cj[3]) and bool(sx_find(cj[3], lambda y: y[0] in ("opc", "idx") and var_of(y[3] if len(y) > 3 else y[2]) == vi or (y[0] == "var" and y[1] == vi))) \
+                and [s_[0] for s_ in _steps(f, loops[inner], vj)] == ["++"]
+            chk.judge(okj, "SWEEP", name + ":all-nodes-of-the-level", f.loc, "node loop: %s = %s; %s" % (vj, sx_str(dj[0]["init"]) if dj else None, sx_str(cj)))
+            okc = len(cs) == 1 and {y[1] for y in sx_find(call_obj(cs[0]), lambda y: y[0] == "var")} == {vi, vj}
         chk.judge(okc, "SWEEP", name + ":per-node-routine-on-node[i][j]", f.loc, "called on %s" % (sx_str(call_obj(cs[0])) if cs else None))
         if name == "calcKineticEnergy" and cs:
             acc = [a for a in _accum_events(f, loops[inner])]
@@ -235,9 +259,14 @@ def sweeps(chk, P):
         if chk.shape(len(loops) == 1, "SWEEP", "inward:one-loop-over-children", f.loc, "%d loops" % len(loops)):
             h, body = next(iter(loops.items()))
             v, c = _loop_var(f, h)
-            d0 = [d for _, _, d in f.events(lambda q: q["k"] == "decl" and q["var"] == v)]
-            ok = len(d0) == 1 and d0[0]["init"] == ["lit", "0"] and c[1] == "<" and bool(sx_find(c[3], lambda y: y[0] == "mem" and y[2].endswith("::children"))) and [s_[0] for s_ in _steps(f, body, v)] == ["++"]
-            chk.judge(ok, "SWEEP", "inward:all-children", f.loc, "child loop: %s = %s; %s" % (v, sx_str(d0[0]["init"]) if d0 else None, sx_str(c)))
+            rfc = range_for(f, h)
+            if rfc is not None:
+                ok = bool(sx_find(rfc[0], lambda y: y[0] == "mem" and y[2].endswith("::children"))) or (isinstance(rfc[0], list) and rfc[0][:1] == ["mem"] and rfc[0][2].endswith("::children"))
+                chk.judge(ok, "SWEEP", "inward:all-children", f.loc, "range-for over %s" % sx_str(rfc[0]))
+            else:
+                d0 = [d for _, _, d in f.events(lambda q: q["k"] == "decl" and q["var"] == v)]
+                ok = len(d0) == 1 and d0[0]["init"] == ["lit", "0"] and c[1] == "<" and bool(sx_find(c[3], lambda y: y[0] == "mem" and y[2].endswith("::children"))) and [s_[0] for s_ in _steps(f, body, v)] == ["++"]
+                chk.judge(ok, "SWEEP", "inward:all-children", f.loc, "child loop: %s = %s; %s" % (v, sx_str(d0[0]["init"]) if d0 else None, sx_str(c)))
             # own inertia first
             own = [e for b, _, e in f.events(lambda q: bool(ev_write(q)) and ev_write(q)[1] == "=" and bool(sx_find(ev_write(q)[2], lambda y: y[0] == "call" and y[1].endswith("::getMk_G")))) if b not in body]
             chk.judge(len(own) == 1, "SWEEP", "inward:starts-from-own-spatial-inertia", f.loc, "R = getMk_G(pc) before the children are added")
@@ -261,6 +290,16 @@ def sweeps(chk, P):
                 ixs = {sx_str(z[3]) for z in srcs}
                 has_r = any(sx_find(loc_.get(y[1]), lambda z: z[0] == "call" and z[1].endswith("::fromB")) for y in sx_find(acc[0][2], lambda y: y[0] == "var") if y[1] in loc_)
                 has_phi = any(sx_find(loc_.get(y[1]), lambda z: z[0] == "call" and z[1].endswith("::getPhi")) for y in sx_find(acc[0][2], lambda y: y[0] == "var") if y[1] in loc_)
+                if rfc is not None:
+                    # both quantities are taken from the range-for's element
+                    objs = []
+                    for y in sx_find(acc[0][2], lambda y: y[0] == "var"):
+                        if y[1] in loc_:
+                            objs += [z[2] for z in sx_find(loc_[y[1]], lambda z: z[0] == "call" and z[1].split("::")[-1] in ("fromB", "getPhi"))]
+                    objs += [z[2] for z in sx_find(acc[0][2], lambda z: z[0] == "call" and z[1].split("::")[-1] in ("fromB", "getPhi"))]
+                    srcs = objs
+                    ixs = {sx_str(o) for o in objs}
+                    v = rfc[1]
                 chk.judge(len(srcs) >= 2 and ixs == {v} and has_r and has_phi, "SWEEP", "inward:inertia-and-shift-of-the-same-child", "%s:%d" % (f.file, acc[0][1]["line"]),
                           "R += fromB(children[k]).shift(-getPhi(children[k]).l()) with k the loop variable in both places: indices %s" % sorted(ixs))
 
